@@ -192,7 +192,7 @@ impl Prop for C10 {
     }
     fn components(&self) -> Value {
         json!({"real": ["sentinel-core: the five rule managers, controller/breaker builders, EntryBuilder + slot chain for the behavioural probes"],
-               "stub": ["clock (virtual, hook H1)", "getrandom (seeded hash order of rule sets)", "logger (none)"]})
+               "stub": ["clock (virtual, hook H1)", "getrandom (seeded hash order of rule sets)", "logger (a sink that formats every record of the library and discards it)"]})
     }
 
     fn generate(&self, rng: &mut Rng, slot_ns: u64, avoid: bool) -> Value {
